@@ -382,12 +382,40 @@ Definition ro_eqb (a b : ro_result) : bool :=
   | _, _ => false
   end.
 
-(* the authorization endpoint does not authenticate the client: its kind plays no part *)
-Definition reqobj_outcome (r : router) (c : config) (k : client_kind) : ro_result :=
-  match r with
-  | RProvider => if f_reqobj c then RoHonoured else RoNotSupported   (* Authorize *)
-  | RLegacy => if f_reqobj c then RoHonoured else RoNotSupported     (* LegacyServer.VerifyAuthRequest *)
-  end.
+(* where the authorization parameters live: OIDC Core 6.1 lets everything but client_id,
+   response_type and scope (with openid) live in the request object only *)
+Inductive ro_placement :=
+| PBoth               (* every parameter outside; the object repeats them and overrides state *)
+| PRedirectInner      (* redirect_uri only inside the object *)
+| PStateInner         (* state (and nonce) only inside the object *)
+| PScopeInner         (* scope only inside the object: not allowed by 6.1 *)
+| PResponseTypeInner. (* response_type only inside the object: not allowed by 6.1 *)
+
+Definition ro_legal (p : ro_placement) : bool :=
+  match p with PBoth | PRedirectInner | PStateInner => true | _ => false end.
+
+(* the authorization endpoint does not authenticate the client: its kind plays no part.
+   Supported: ParseRequestObject (refuses an inner response_type that differs from the outer one),
+   CopyRequestObjectToAuthRequest (scopes only when openid is outside), then the required-parameter
+   and client validation on the merged request.
+   Not supported: LegacyServer.VerifyAuthRequest refuses at once; op.Authorize validates the OUTER
+   parameters first (missing redirect_uri / scope / response_type are reported as such) and only
+   then answers request_not_supported. *)
+Definition reqobj_outcome (r : router) (c : config) (k : client_kind) (p : ro_placement) : ro_result :=
+  if f_reqobj c then
+    match p with
+    | PBoth | PRedirectInner | PStateInner => RoHonoured
+    | PScopeInner | PResponseTypeInner => RoOther
+    end
+  else
+    match r with
+    | RLegacy => RoNotSupported
+    | RProvider =>
+        match p with
+        | PBoth | PStateInner => RoNotSupported
+        | PRedirectInner | PScopeInner | PResponseTypeInner => RoOther
+        end
+    end.
 
 (* ------------------------------------------------------------------ issuer validation *)
 
